@@ -64,6 +64,87 @@ func Mutations(s []byte, regs []refmodel.Region, allCuts bool, emit func(class, 
 		}
 		return true
 	}
+	// permute(whole elements): two ADJACENT sibling regions of a repeated element (mapping pairs, leases, keys,
+	// entries, addresses) exchanged, byte for byte - the length of the encoding and every count and size field
+	// stay right, only the order changes; and, for three or more siblings, the whole run reversed
+	{
+		type sib struct{ off, n int }
+		runs := map[string][]sib{}
+		var order []string
+		for _, r := range regs {
+			ix := indices(r.Name)
+			if len(ix) == 0 || !strings.HasSuffix(r.Name, "]") {
+				continue
+			}
+			last := ix[len(ix)-1]
+			if last.prefix+fmt.Sprintf("[%d]", last.n) != r.Name {
+				continue
+			}
+			if _, ok := runs[last.prefix]; !ok {
+				order = append(order, last.prefix)
+			}
+			runs[last.prefix] = append(runs[last.prefix], sib{r.Off, r.Len})
+		}
+		for _, pre := range order {
+			sibs := runs[pre]
+			contiguous := true
+			for i := 1; i < len(sibs); i++ {
+				if sibs[i].off != sibs[i-1].off+sibs[i-1].n {
+					contiguous = false
+				}
+			}
+			// addelem: one more well-formed element and the one-byte count in front of the run bumped - a copy of
+			// the last element appended, and for key entries (type, length, data) an entry of an unassigned type
+			// inserted in front of and behind the run
+			if contiguous && len(sibs) >= 1 {
+				for _, r := range regs {
+					if r.Len != 1 || r.Off+1 != sibs[0].off || s[r.Off] == 0xff {
+						continue
+					}
+					end := sibs[len(sibs)-1].off + sibs[len(sibs)-1].n
+					ins := func(at int, elem []byte) []byte {
+						b := append(append(append([]byte(nil), s[:at]...), elem...), s[at:]...)
+						b[r.Off]++
+						return b
+					}
+					last := sibs[len(sibs)-1]
+					emit("addelem("+short(pre)+"[],copy)", pre, ins(end, s[last.off:last.off+last.n]))
+					if strings.HasSuffix(pre, "key") {
+						unk := []byte{0x12, 0x34, 0x00, 0x04, 0xde, 0xad, 0xbe, 0xef}
+						emit("addelem("+short(pre)+"[],unassigned-type)", pre+" (front)", ins(sibs[0].off, unk))
+						emit("addelem("+short(pre)+"[],unassigned-type)", pre+" (back)", ins(end, unk))
+					}
+					break
+				}
+			}
+			if len(sibs) < 2 || !contiguous {
+				continue
+			}
+			for _, i := range []int{0, len(sibs) - 2} {
+				a, c := sibs[i], sibs[i+1]
+				b := clone()
+				copy(b[a.off:], s[c.off:c.off+c.n])
+				copy(b[a.off+c.n:], s[a.off:a.off+a.n])
+				if string(b) != string(s) {
+					emit("swap("+short(pre)+"[])", fmt.Sprintf("%s[%d] <-> [%d]", pre, i, i+1), b)
+				}
+				if len(sibs) == 2 {
+					break
+				}
+			}
+			if len(sibs) >= 3 {
+				b := clone()
+				at := sibs[0].off
+				for i := len(sibs) - 1; i >= 0; i-- {
+					copy(b[at:], s[sibs[i].off:sibs[i].off+sibs[i].n])
+					at += sibs[i].n
+				}
+				if string(b) != string(s) {
+					emit("reverse("+short(pre)+"[])", pre, b)
+				}
+			}
+		}
+	}
 	for _, r := range regs {
 		if r.Len == 0 && !strings.HasSuffix(r.Name, "payload") {
 			continue
